@@ -15,8 +15,10 @@ echo "== apply patch" >> $log; git apply $S/patch.diff >> $log 2>&1 || { echo "P
 echo "== build with patch" >> $log; cargo build --workspace --offline >> $log 2>&1; b=$?
 echo "== suite with patch" >> $log; cargo test --workspace --no-fail-fast --offline >> $log 2>&1; t=$?
 cp $OUT/demo/$demo $R/$dest
+if [ -n "${EXTRA_SRC:-}" ]; then cp -r $OUT/demo/$EXTRA_SRC $R/$EXTRA_DEST; fi
 echo "== demo with patch" >> $log; cargo test --offline "$@" >> $log 2>&1; d1=$?
 git -C $R checkout -q -- .
 echo "== demo without patch" >> $log; cargo test --offline "$@" >> $log 2>&1; d0=$?
 rm -f $R/$dest
+if [ -n "${EXTRA_SRC:-}" ]; then rm -rf $R/$EXTRA_DEST; fi
 echo "RESULT id=$id build=$b suite_with_patch=$t demo_with_patch=$d1 demo_without_patch=$d0" | tee -a $log
